@@ -1,7 +1,7 @@
 (* Store.v — model of crl/crlstore (MapStore, LevelDbStore): a map from the 64-bit FNV-1a
    of the key string to the serialised value.  Values are abstract identifiers: the
    serialisation is Go's encoding/asn1 (library), whose round trip the harness exercises. *)
-From Verif Require Import Base Bytes.
+From Verif Require Import Base Bytes KeyFacts.
 From Verif.gen Require GenFacts.
 
 Inductive backend := MapB | LevelB.
